@@ -71,7 +71,9 @@ def gen_dataset(rng, fmt, nvars=None, dims=None, axes=None, names=None):
     for k in names:
         vd = rng.sample(dims, rng.randint(0, len(dims)))
         vs[k] = gen_var(rng, axes, vd, fmt)
-    return {"dims": list(dims), "axes": axes, "vars": vs, "attrs": rand_attrs(rng, "g_")}
+    # 30 %: the dataset's axes are declared up front, in an order of their own (not the order in which the variables first use
+    # them), some possibly used by no variable
+    return {"dims": list(dims), "axes": axes, "vars": vs, "attrs": rand_attrs(rng, "g_"), "predeclare": rng.random() < 0.3}
 
 
 def build_array(sp, axes=None):
@@ -90,6 +92,12 @@ def build_array(sp, axes=None):
 def build_dataset(dsp):
     da = __import__("vp.boot", fromlist=["boot"]).boot()
     ds = da.Dataset()
+    if dsp.get("predeclare"):
+        for d in dsp["dims"]:
+            lab, kind, at = dsp["axes"][d]
+            ax = da.Axis(gen.np_labels(lab, kind), d)
+            ax._attrs.update(at)
+            ds.axes.append(ax)
     for k, sp in dsp["vars"].items():
         ds[k] = build_array(sp, dsp["axes"])
     ds.attrs.update(dsp["attrs"])
@@ -127,6 +135,8 @@ class FileModel(object):
             for d in sp["dims"]:
                 if d not in used:
                     used.append(d)
+        if dsp.get("predeclare"):
+            used = list(dsp["dims"])        # all of them, in the declared order
         for d in used:      # Dataset.write_nc writes the dataset's axes first, in the dataset's order
             l, k, at = dsp["axes"][d]
             self.add_axis(d, l, k, at)
@@ -193,6 +203,7 @@ def compare_dataset(ctx, prop, key, label, got, fm, names=None):
     if not common.is_ds(got):
         ctx.v(prop, key + ":type", "%s returned %s" % (label, type(got).__name__))
         return False
+    whole = names is None
     names = list(fm.vars) if names is None else list(names)
     if sorted(got.keys()) != sorted(names):
         ctx.v(prop, key + ":keys", "%s: variables %r, expected %r" % (label, sorted(got.keys()), sorted(names)))
@@ -204,6 +215,11 @@ def compare_dataset(ctx, prop, key, label, got, fm, names=None):
     exp_dims = used if names != list(fm.vars) or True else fm.dims
     if set(got.dims) - set(fm.dims) or not set(used) <= set(got.dims):
         ctx.v(prop, key + ":dims", "%s: dataset dims %r, expected %r" % (label, tuple(got.dims), tuple(exp_dims)))
+        ok = False
+    if ok and whole and [d for d in got.dims if d in fm.dims] != [d for d in fm.dims if d in got.dims]:
+        # "reading it back yields equal data": a Dataset's axes are an ordered list (Dataset.__eq__ compares them in order);
+        # the file keeps the order in which the dimensions were created
+        ctx.v(prop, key + ":dims-order", "%s: dataset dims %r, the dimensions were written in the order %r" % (label, tuple(got.dims), tuple(fm.dims)))
         ok = False
     m = attrs_equal(dict(got.attrs), fm.attrs)
     if m:
